@@ -43,6 +43,9 @@ CLAIMED = {
  "C07": dict(technique="SSA path/dominance analysis of continuation-iff-success for both synchronisers, guards on tag ownership, linear/phi analysis of view and confirmation counting, LoadOrStore arm guard, sort-before-use, tag table provenance",
              text="Sound static decision of structural necessary conditions of membership synchronisation: continuation iff nil return, tag must belong to the authenticated sender, exact-size and identical-list counting guards, one confirmation per peer, sorted output, complete tag table. Agreement under lying members/interleavings and timely completion are not decided.",
              design="§4 C07"),
+ "C09": dict(technique="freshness (ownership) analysis of mathlib mutator receivers over SSA, store-target analysis on verification paths, dominance of share uses by the proof check, provenance of Fiat-Shamir oracle operands, error-propagation analysis",
+             text="Sound static decision of structural necessary conditions of 'verification rejects altered input and is side-effect free': mutators only on fresh objects, no stores into inputs, proof checked before the share is used, every group-element operand bound by the challenge and every equation fed by it, every inner verdict/parse error returned, BLS aggregation through the party->point table. Soundness of the pairing equations is algebra and not decided.",
+             design="§4 C09"),
 }
 NOT_APPLICABLE = {
  "C08": "completeness of blind/sign/unblind/PoK is an algebraic identity over runtime group elements; no clause is visible in the shape of the code (DESIGN.md §4 C08)",
